@@ -15,6 +15,15 @@ NOTES = {
  "C19-a": "escaped at first (backslashes in strings were excluded wholesale as F18); F18 narrowed to trim / quote / trailing backslash, which also exposed F34",
  "C02-b": "escaped at first (one document per invocation); C02 'multi-document' and C05 'batch' stages added",
  "C10-b": "escaped at first (documents never began with blank lines or indentation); leading whitespace added to the document layouts",
+ "C05-b": "escaped at first (single-word keys only: the tool's key-case converters were never exercised); documents now carry multi-word keys in several naming conventions that the rules query in yet another one (C02/C05/C07/C12 batch stages)",
+ "C07-b": "escaped C07 at first (one data file per case; caught by C06); C07 gained the multi-data stage (exit code, per-file status, JUnit counters over 2-3 data files)",
+ "C08-b": "escaped at first (the hand-written list of self-referential variables had no function-valued `let` inside a block); replaced by a generated product scope x definition kind x cycle length x use, run through the real binary; the sub-agent also reported F36-F38",
+ "C11-b": "escaped at first (the block writer never used literal / folded block scalars); `|`, `|-`, `>-` added to the YAML block writer",
+ "C12-b": "escaped at first (all rules files had distinct base names in one directory); a third of the batches now use <dir-i>/policy.guard and <dir-j>/template.json",
+ "C14-b": "caught by the C14 rewrite stage; C01 was blind to it (no clauses outside rules) - the implicit default rule was added to C01's generator and model",
+ "C17-b": "escaped at first (no rule walked the merged top-level map as a whole); `this.*`, keys filters and count(this.*) rules added",
+ "C19-b": "escaped at first (ints up to 65536 only); integers beyond 2^53 added",
+ "C15-b": "same mechanism as C01-a / C04-a (the sub-agents converged on it independently)",
  "C09-a": "caught through the file-status law; C09 now also compares rule names with the generated programs",
 }
 rows = []
